@@ -314,6 +314,13 @@ func (w *World) ScheduleFaults(plan FaultPlan, horizon time.Duration) {
 			s.At(at+dur, "heal", func() { s.Heal(); s.Stats["heal"]++ })
 		}
 	}
+	s.OnNodeDied = func(n *Node) {
+		if n.onDied != nil {
+			f := n.onDied
+			n.onDied = nil
+			f()
+		}
+	}
 	if plan.Crashes {
 		nc := simkit.Int(t, "ncrashes", 0, 3)
 		for i := 0; i < nc; i++ {
@@ -327,7 +334,36 @@ func (w *World) ScheduleFaults(plan FaultPlan, horizon time.Duration) {
 				down = time.Duration(simkit.Int(t, "downforlong", 20, 60)) * w.BlockTime
 				simkit.Fault("long_outage")
 			}
-			mode := simkit.Int(t, "crashmode", 0, 2) // 0 graceful, 1 kill, 2 power loss
+			mode := simkit.Int(t, "crashmode", 0, 4) // 0 graceful, 1 kill, 2 power loss, 3/4 kill / power loss in the middle of a step
+			crashK := simkit.Int(t, "crashstepop", 1, 10)
+			crashTear := []int{-1, 0, 7}[simkit.Int(t, "crashsteptear", 0, 2)]
+			restart := func() {
+				s.At(down, "restart "+n.Name, func() {
+					if n.Up || n.Hung {
+						return
+					}
+					if err := n.Start(); err != nil {
+						if s.NodePanic != nil {
+							s.NodePanic(n, "restart", fmt.Errorf("restart failed: %w (log %v)", err, n.Log.Tail(3)))
+						}
+						return
+					}
+					s.Stats["restart"]++
+					if w.OnRestart != nil {
+						w.OnRestart(n)
+					}
+					s.StartTicks(n)
+				})
+			}
+			if mode >= 3 {
+				s.At(at, "arm crash "+n.Name, func() {
+					if n.Up && !n.CrashArmed {
+						s.ArmCrash(n, crashK, crashTear, mode == 4)
+						n.onDied = restart
+					}
+				})
+				continue
+			}
 			s.At(at, "crash "+n.Name, func() {
 				if !n.Up {
 					return
@@ -352,6 +388,34 @@ func (w *World) ScheduleFaults(plan FaultPlan, horizon time.Duration) {
 				})
 			})
 		}
+	}
+}
+
+// KillInsideNextSteps arms node n's disk so that the node dies at the k-th file-system call of one of its next steps,
+// and restarts it `down` later.
+func (w *World) KillInsideNextSteps(n *Node, k, tear int, power bool, down time.Duration) {
+	s := w.S
+	if !n.Up || n.CrashArmed || n.armPending {
+		return
+	}
+	s.ArmCrash(n, k, tear, power)
+	n.onDied = func() {
+		s.At(down, "restart "+n.Name, func() {
+			if n.Up || n.Hung {
+				return
+			}
+			if err := n.Start(); err != nil {
+				if s.NodePanic != nil {
+					s.NodePanic(n, "restart", fmt.Errorf("restart failed: %w (log %v)", err, n.Log.Tail(3)))
+				}
+				return
+			}
+			s.Stats["restart"]++
+			if w.OnRestart != nil {
+				w.OnRestart(n)
+			}
+			s.StartTicks(n)
+		})
 	}
 }
 
